@@ -3,6 +3,7 @@ package rules
 import (
 	"go/ast"
 	"go/token"
+	"go/types"
 	"strings"
 
 	"gbcheck/internal/prog"
@@ -21,6 +22,8 @@ func init() {
 			{"C02.R3", "q", "append ⇒ hint with the appended position", c02r3},
 			{"C02.R4", "q", "hint shorter than data ⇒ rebuild from the covered offset, fail-stop", c02r4},
 			{"C02.R5", "q", "hint replay: set live, remove tombstones", c02r5},
+			{"C02.R4b", "q", "per-chunk replay start is fresh for every chunk", c02r4b},
+			{"C09.R4", "q", "shared: block size agreement of writer and rebuild scanner", c09r4},
 			{"C02.R6", "q", "hintMgr.close dumps every chunk's last split", c02r6},
 			{"C14.R7", "q", "shared: a split's recorded data size covers only accepted records", c14r7},
 		},
@@ -115,20 +118,25 @@ func c02r1b(c *Ctx) {
 					switch call.Key {
 					case "sync.WaitGroup.Wait":
 						joined = true
-					case "store.dataStore.flush":
-						if len(call.Expr.Args) > 0 {
-							if v, ok := prog.ConstInt(closeF.Info(), call.Expr.Args[0]); !(ok && v < 0) {
-								joined = true // flushes a named chunk besides the head
-							}
-						}
 					}
 				}
 				// a loop over chunks calling flush also counts
+				// several rotations can be pending at once: only a loop over every chunk below the head joins them all
 				ast.Inspect(closeF.Decl.Body, func(y ast.Node) bool {
 					switch l := y.(type) {
-					case *ast.ForStmt, *ast.RangeStmt:
-						if len(closeF.CallsIn(l, "store.dataStore.flush", "store.dataChunk.flush")) > 0 {
+					case *ast.RangeStmt:
+						if len(closeF.CallsIn(l, "store.dataStore.flush", "store.dataChunk.flush")) > 0 && prog.MentionsField(closeF.Info(), l.X, "store.dataStore.chunks") {
 							joined = true
+						}
+					case *ast.ForStmt:
+						if len(closeF.CallsIn(l, "store.dataStore.flush", "store.dataChunk.flush")) > 0 && l.Init != nil && l.Cond != nil {
+							if as, ok := l.Init.(*ast.AssignStmt); ok && len(as.Rhs) == 1 {
+								if v, isC := prog.ConstInt(closeF.Info(), as.Rhs[0]); isC && v == 0 {
+									if be, ok := prog.Unparen(l.Cond).(*ast.BinaryExpr); ok && (be.Op == token.LSS || be.Op == token.LEQ) && (prog.MentionsField(closeF.Info(), be.Y, "store.dataStore.newHead") || prog.MentionsConst(closeF.Info(), be.Y, "store.MAX_NUM_CHUNK")) {
+										joined = true
+									}
+								}
+							}
 						}
 					}
 					return true
@@ -139,7 +147,7 @@ func c02r1b(c *Ctx) {
 				c.check(isC && b, R, f.Key+": go "+short(k)+" of the rotated file is forced", c.pos(gs), "force = true",
 					"the only flush a rotated data file ever gets on its own is spawned with force=false, so the flusher's rate limit (flush_interval, <1MB buffered) can skip it: the acknowledged tail of the rotated file stays in memory until shutdown")
 			}
-			c.check(joined, R, key, c.pos(gs), "close waits for it or flushes the chunk itself",
+			c.check(joined, R, key, c.pos(gs), "close waits for it or flushes every chunk below the head itself",
 				"a goroutine that writes buffered records of the previous data file is spawned and never joined; Bucket.close flushes only the head chunk (flush(-1)), so Close can return — and the process exit — before acknowledged records of the rotated file reach disk")
 			return true
 		})
@@ -551,4 +559,72 @@ func c02r6(c *Ctx) {
 		}
 	}
 	c.check(okLoop, R, f.Key+": trydump(i, true) for i <= maxChunkID", f.Pos(), "loop covers every chunk including the head", "hintMgr.close does not dump the last split of every chunk up to and including maxChunkID")
+}
+
+// c02r4b: in Bucket.open the first split to replay is TreeID.Split+1 only for
+// the tree's own chunk and 0 for every later chunk.
+func c02r4b(c *Ctx) {
+	const R = "C02.R4b"
+	f := c.fn(R, "store.Bucket.open")
+	if f == nil {
+		return
+	}
+	info := f.Info()
+	ups := f.CallsTo("store.Bucket.updateHtreeFromHint")
+	if len(ups) == 0 {
+		c.undec(R, f.Key, "hint replay not recognised")
+		return
+	}
+	var loop *ast.ForStmt
+	for _, a := range f.Enclosing(ups[0].Expr) {
+		if fs, ok := a.(*ast.ForStmt); ok {
+			loop = fs
+		}
+	}
+	if loop == nil {
+		c.undec(R, f.Key, "chunk loop not recognised")
+		return
+	}
+	// the variable compared with the number of hint files in the skip test
+	var startObj types.Object
+	var skip *ast.IfStmt
+	ast.Inspect(loop.Body, func(x ast.Node) bool {
+		is, ok := x.(*ast.IfStmt)
+		if !ok || skip != nil {
+			return true
+		}
+		if be, ok := prog.Unparen(is.Cond).(*ast.BinaryExpr); ok && (be.Op == token.GEQ || be.Op == token.GTR) && len(is.Body.List) == 1 {
+			if br, ok := is.Body.List[0].(*ast.BranchStmt); ok && br.Tok == token.CONTINUE {
+				if o := prog.ObjOf(info, be.X); o != nil {
+					startObj, skip = o, is
+				}
+			}
+		}
+		return true
+	})
+	if startObj == nil {
+		c.undec(R, f.Key, "`already covered by the tree dump` skip test not recognised")
+		return
+	}
+	fresh := startObj.Pos() > loop.Body.Pos() && startObj.Pos() < loop.Body.End()
+	// set to Split+1 only under i == TreeID.Chunk
+	okCond := true
+	ast.Inspect(loop.Body, func(x ast.Node) bool {
+		if as, ok := x.(*ast.AssignStmt); ok && len(as.Lhs) == 1 && prog.ObjOf(info, as.Lhs[0]) == startObj && as.Tok == token.ASSIGN {
+			if prog.MentionsField(info, as.Rhs[0], "store.HintID.Split") {
+				g := false
+				for _, a := range f.GuardsAt(as) {
+					if a.Op == token.EQL && a.Y != nil && (prog.MentionsField(info, a.Y, "store.HintID.Chunk") || prog.MentionsField(info, a.X, "store.HintID.Chunk")) {
+						g = true
+					}
+				}
+				if !g {
+					okCond = false
+				}
+			}
+		}
+		return true
+	})
+	c.check(fresh && okCond, R, f.Key+": replay start index fresh per chunk, Split+1 only for the tree's own chunk", c.pos(skip), "declared inside the chunk loop",
+		"the index of the first hint split to replay is carried over from one chunk to the next (declared outside the loop / reset skipped by the `continue`): for chunks after the tree dump's own chunk some or all hint splits are not replayed into the loaded tree, so the restart serves the state of the older tree dump")
 }
